@@ -81,10 +81,12 @@ Qed.
 
 (* a single path segment: what a CID, a peer ID or a metric name must be for the path built by Sprintf to have the
    segments the route expects (go-cid / peer.ID strings always are; a metric name is whatever the caller passes) *)
-Definition plain_seg (s : string) : Prop := s <> "" /\ has_char slash s = false.
+Definition plain_seg (s : string) : Prop := s <> "" /\ has_char slash s = false /\ s <> "." /\ s <> "..".
+(* "." and "..": mux cleanPath would answer 301 (abstract re_redirect, false in renv_of). Other characters are arbitrary: the
+   client escapes the metric name since fix-S27, CIDs and peer IDs are alphanumeric. *)
 
 Lemma plain_seg_eqb s : plain_seg s -> String.eqb s "" = false.
-Proof. intros [H _]. apply String.eqb_neq. exact H. Qed.
+Proof. intros (H & _). apply String.eqb_neq. exact H. Qed.
 
 (* ------------------------------------------------------------------------------------------ *)
 (* the generated client table                                                                 *)
@@ -191,7 +193,8 @@ Proof.
     + rewrite Hn. apply IH; [exact Hp | intros a b d Hi; apply (Hpre a b d); right; exact Hi].
 Qed.
 
-Ltac pm_eval H1 H2 := unfold path_match, L; cbn; rewrite ?H1, ?H2; cbn; rewrite ?H1, ?H2; cbn; try reflexivity.
+Ltac pm_eval H1 H2 := unfold path_match, L; cbn; rewrite ?H1, ?H2; cbn; rewrite ?H1, ?H2; cbn; try reflexivity;
+  try (repeat match goal with |- context[if ?b then _ else _] => destruct b end; reflexivity).
 
 Ltac route_at n entry H1 H2 :=
   change route_spec with (firstn n route_spec ++ entry :: skipn (S n) route_spec);
@@ -206,54 +209,59 @@ Ltac seg_one Hns := unfold segments; cbn [append split_on Ascii.eqb Bool.eqb sla
 Lemma R_PeerRm x : plain_seg x ->
   resolve true route_spec "DELETE" (segments ("/peers/" ++ x)) false = MFull RPeerRemove [("peer", x)].
 Proof.
-  intros [Hne Hns]. apply String.eqb_neq in Hne. seg_one Hns.
+  intros (Hne & Hns & _). apply String.eqb_neq in Hne. seg_one Hns.
   route_at 4%nat ("DELETE", [L ""; L "peers"; TVar "peer"], RPeerRemove) Hne Hne.
 Qed.
 
 Lemma R_Pin x : plain_seg x -> x <> "recover" ->
   resolve true route_spec "POST" (segments ("/pins/" ++ x)) false = MFull RPin [("hash", x)].
 Proof.
-  intros [Hne Hns] Hr. apply String.eqb_neq in Hne.
+  intros (Hne & Hns & _) Hr. apply String.eqb_neq in Hne.
   assert (Hr' : String.eqb "recover" x = false) by (apply String.eqb_neq; congruence).
-  seg_one Hns. route_at 12%nat ("POST", [L ""; L "pins"; TVar "hash"], RPin) Hne Hr'.
+  seg_one Hns. route_at 13%nat ("POST", [L ""; L "pins"; TVar "hash"], RPin) Hne Hr'.
 Qed.
 
 Lemma R_Unpin x : plain_seg x ->
   resolve true route_spec "DELETE" (segments ("/pins/" ++ x)) false = MFull RUnpin [("hash", x)].
 Proof.
-  intros [Hne Hns]. apply String.eqb_neq in Hne. seg_one Hns.
+  intros (Hne & Hns & _). apply String.eqb_neq in Hne. seg_one Hns.
   route_at 14%nat ("DELETE", [L ""; L "pins"; TVar "hash"], RUnpin) Hne Hne.
 Qed.
 
 Lemma R_Status x : plain_seg x ->
   resolve true route_spec "GET" (segments ("/pins/" ++ x)) false = MFull RStatus [("hash", x)].
 Proof.
-  intros [Hne Hns]. apply String.eqb_neq in Hne. seg_one Hns.
-  route_at 11%nat ("GET", [L ""; L "pins"; TVar "hash"], RStatus) Hne Hne.
+  intros (Hne & Hns & _). apply String.eqb_neq in Hne. seg_one Hns.
+  route_at 12%nat ("GET", [L ""; L "pins"; TVar "hash"], RStatus) Hne Hne.
 Qed.
 
 Lemma R_Allocation x : plain_seg x ->
   resolve true route_spec "GET" (segments ("/allocations/" ++ x)) false = MFull RAllocation [("hash", x)].
 Proof.
-  intros [Hne Hns]. apply String.eqb_neq in Hne. seg_one Hns.
+  intros (Hne & Hns & _). apply String.eqb_neq in Hne. seg_one Hns.
   route_at 7%nat ("GET", [L ""; L "allocations"; TVar "hash"], RAllocation) Hne Hne.
 Qed.
 
 Lemma R_Metrics x : plain_seg x ->
   resolve true route_spec "GET" (segments ("/monitor/metrics/" ++ x)) false = MFull RMetrics [("name", x)].
 Proof.
-  intros [Hne Hns]. apply String.eqb_neq in Hne. seg_one Hns.
+  intros (Hne & Hns & _). apply String.eqb_neq in Hne. seg_one Hns.
   route_at 19%nat ("GET", [L ""; L "monitor"; L "metrics"; TVar "name"], RMetrics) Hne Hne.
 Qed.
 
-Lemma R_Recover x : plain_seg x ->
+(* the CID of Recover must not be one of the three key types: POST /pins/ipfs/recover is a path (a CID string never is) *)
+Lemma R_Recover x : plain_seg x -> ~ In x ["ipfs"; "ipns"; "ipld"] ->
   resolve true route_spec "POST" (segments ("/pins/" ++ x ++ "/recover")) false = MFull RRecover [("hash", x)].
 Proof.
-  intros [Hne Hns]. apply String.eqb_neq in Hne.
+  intros (Hne & Hns & _) Hnk. apply String.eqb_neq in Hne.
+  assert (Hkt : (String.eqb x "ipfs") || ((String.eqb x "ipns") || ((String.eqb x "ipld") || false)) = false).
+  { destruct (String.eqb x "ipfs") eqn:E1; [apply String.eqb_eq in E1; exfalso; apply Hnk; rewrite E1; cbn; auto|].
+    destruct (String.eqb x "ipns") eqn:E2; [apply String.eqb_eq in E2; exfalso; apply Hnk; rewrite E2; cbn; auto|].
+    destruct (String.eqb x "ipld") eqn:E3; [apply String.eqb_eq in E3; exfalso; apply Hnk; rewrite E3; cbn; auto|]. reflexivity. }
   unfold segments. cbn [append split_on Ascii.eqb Bool.eqb slash].
   change (x ++ "/recover")%string with (x ++ String slash "recover")%string. rewrite (split_on_app _ _ _ _ Hns).
   cbn [split_on Ascii.eqb Bool.eqb slash].
-  route_at 9%nat ("POST", [L ""; L "pins"; TVar "hash"; L "recover"], RRecover) Hne Hne.
+  route_at 10%nat ("POST", [L ""; L "pins"; TVar "hash"; L "recover"], RRecover) Hne Hkt.
 Qed.
 
 Lemma pm_no_trailing t segs : ends_empty segs = false ->
@@ -264,13 +272,13 @@ Lemma kt_facts kt : In kt ["ipfs"; "ipns"; "ipld"] ->
   String.eqb kt "" = false /\ String.eqb "recover" kt = false /\ String.eqb "peers" kt = false /\ str_in kt ["ipfs"; "ipns"; "ipld"] = true /\ has_char slash kt = false.
 Proof. cbn [In]. intros [<-|[<-|[<-|[]]]]; repeat split; reflexivity. Qed.
 
-(* "/pins" ++ "/<ipfs|ipns|ipld>/<rest>": rest non-empty, not ending in '/', and (for POST) not the single segment "recover" *)
+(* "/pins" ++ "/<ipfs|ipns|ipld>/<rest>": rest non-empty and not ending in '/' (PinPath is listed before Recover since fix-S26,
+   so the rest may be anything, also the single segment "recover") *)
 Lemma R_Path (post : bool) kt rest : In kt ["ipfs"; "ipns"; "ipld"] -> rest <> "" -> last_is slash rest = false ->
-  (post = true -> rest <> "recover") ->
   resolve true route_spec (if post then "POST" else "DELETE") (segments ("/pins/" ++ kt ++ "/" ++ rest)) false
   = MFull (if post then RPinPath else RUnpinPath) [("keyType", kt); ("path", rest)].
 Proof.
-  intros Hk Hne Hl Hr. destruct (kt_facts kt Hk) as (Hk1 & Hk2 & Hk4 & Hk3 & Hks).
+  intros Hk Hne Hl. destruct (kt_facts kt Hk) as (Hk1 & Hk2 & Hk4 & Hk3 & Hks).
   unfold segments. cbn [append split_on Ascii.eqb Bool.eqb slash].
   change (kt ++ "/" ++ rest)%string with (kt ++ String slash rest)%string. rewrite (split_on_app _ _ _ _ Hks).
   pose proof (split_on_nonempty slash rest (fun x => x)) as Hn.
@@ -280,14 +288,11 @@ Proof.
   destruct (split_on slash (fun x => x) rest) as [|s1 S'] eqn:ES; [congruence|]. clear Hn.
   assert (Het : ends_empty ("" :: "pins" :: kt :: s1 :: S') = false) by (rewrite !ends_empty_cons by discriminate; exact He).
   destruct post.
-  - change route_spec with (firstn 13 route_spec ++ ("POST", [L ""; L "pins"; TAlt "keyType" ["ipfs"; "ipns"; "ipld"]; TRest "path"], RPinPath) :: skipn 14 route_spec).
+  - change route_spec with (firstn 9 route_spec ++ ("POST", [L ""; L "pins"; TAlt "keyType" ["ipfs"; "ipns"; "ipld"]; TRest "path"], RPinPath) :: skipn 10 route_spec).
     apply resolve_hit.
     + rewrite (pm_no_trailing _ _ Het). unfold L. cbn [match_segs]. cbn. cbn in Hk3, Hj. rewrite Hk3, Hj. reflexivity.
     + cbn [firstn route_spec In]. intros rm' t' h' Hin.
       repeat (destruct Hin as [Hin|Hin]; [inversion Hin; subst rm' t' h'; clear Hin; first [left; reflexivity | right; rewrite (pm_no_trailing _ _ Het); unfold L; cbn; rewrite ?Hk1, ?Hk2, ?Hk4; cbn; try reflexivity]|]); try contradiction.
-      (* POST /pins/{hash}/recover: only when the rest is the single segment "recover" *)
-      destruct (String.eqb "recover" s1) eqn:Er; [|reflexivity].
-      destruct S'; [|reflexivity]. exfalso. apply String.eqb_eq in Er. subst s1. apply Hr; [reflexivity|]. rewrite <- Hj. reflexivity.
   - change route_spec with (firstn 15 route_spec ++ ("DELETE", [L ""; L "pins"; TAlt "keyType" ["ipfs"; "ipns"; "ipld"]; TRest "path"], RUnpinPath) :: skipn 16 route_spec).
     apply resolve_hit.
     + rewrite (pm_no_trailing _ _ Het). unfold L. cbn [match_segs]. cbn. cbn in Hk3, Hj. rewrite Hk3, Hj. reflexivity.
@@ -298,20 +303,24 @@ Qed.
 (* ------------------------------------------------------------------------------------------ *)
 (* client_faithful                                                                            *)
 (* ------------------------------------------------------------------------------------------ *)
-(* an IPFS path as go-path prints it, up to one trailing '/': "/<ipfs|ipns|ipld>/<rest>", rest non-empty and not ending
-   in '/'; for POST the rest must not be the single segment "recover" (POST /pins/{hash}/recover is listed first) *)
-Definition ipfs_path_ok (norecover : bool) (p : string) : Prop :=
+(* an IPFS path as go-path prints it, up to one trailing '/': "/<ipfs|ipns|ipld>/<rest>", rest non-empty, not ending in '/',
+   and canonical: no empty, "." or ".." segment (mux cleanPath answers those with a 301 the client cannot follow for a POST or
+   DELETE; in the model that outcome is the abstract re_redirect, which renv_of sets to false). The characters of rest are otherwise
+   arbitrary: since fix-S27 the client escapes the path and net/url's unescape on the server is its inverse (trusted). *)
+Definition canonical_segs (rest : string) : Prop := forall s, In s (segments rest) -> s <> "" /\ s <> "." /\ s <> "..".
+Definition ipfs_path_ok (p : string) : Prop :=
   exists kt rest, In kt ["ipfs"; "ipns"; "ipld"] /\ trim_slash p = ("/" ++ kt ++ "/" ++ rest)%string /\
-    rest <> "" /\ last_is slash rest = false /\ (norecover = true -> rest <> "recover").
+    rest <> "" /\ last_is slash rest = false /\ canonical_segs rest.
 
 (* the guard: arguments that are what they claim to be as far as the URL path is concerned *)
 Definition client_guard (c : ccall) : Prop :=
   let n := cc_name c in
   (In n ["Pin"; "Unpin"; "Allocation"; "Status"; "Recover"] -> plain_seg (cc_cid c)) /\
-  (n = "Pin" -> cc_cid c <> "recover") /\
+  (n = "Pin" -> cc_cid c <> "recover") /\                              (* POST /pins/recover is RecoverAll *)
+  (n = "Recover" -> ~ In (cc_cid c) ["ipfs"; "ipns"; "ipld"]) /\      (* POST /pins/ipfs/recover is a path *)
   (n = "PeerRm" -> plain_seg (cc_peer c)) /\
   (n = "Metrics" -> plain_seg (cc_mname c)) /\
-  (In n ["PinPath"; "UnpinPath"] -> exists p, cc_path c = Some p /\ ipfs_path_ok (String.eqb n "PinPath") p) /\
+  (In n ["PinPath"; "UnpinPath"] -> exists p, cc_path c = Some p /\ ipfs_path_ok p) /\
   (n = "StatusAll" -> cc_filter c <> None).
 
 (* the server's parsers give back what the client's printers were given: CID, peer ID and path unchanged, the
@@ -355,7 +364,7 @@ Lemma client_faithful_l c e o f :
   In (cc_name c) known_calls -> cauthorized e = true -> client_guard c -> rt_ok c e o f ->
   arrives e (client_sent c e o f) (client_run c e).
 Proof.
-  intros Hk Hauth (Gcid & Grec & Gpeer & Gm & Gpath & Gf) (Rcid & Rpath & Rpeer & Rf & Radd).
+  intros Hk Hauth (Gcid & Grec & Grecv & Gpeer & Gm & Gpath & Gf) (Rcid & Rpath & Rpeer & Rf & Radd).
   cbv zeta in *. unfold known_calls in Hk. cbn [map fst client_spec_table In] in Hk.
   repeat (destruct Hk as [Hn|Hk]); try contradiction.
   - (* ID *) cf_closed c Hn Hauth "GET" "/id" false RId.
@@ -399,27 +408,27 @@ Proof.
     + unfold client_sent, client_op; name_is Hn. cbn. unfold look. cbn [sget]. rewrite String.eqb_refl, Hc, Ho. destruct (cc_local c); reflexivity.
   - (* PinPath *)
     destruct Rpath as [Hrp Ho]; [rewrite <- Hn; cbn; tauto|].
-    destruct Gpath as (p & Hp & kt & rest & Hkt & Ht & Hne & Hl & Hr); [rewrite <- Hn; cbn; tauto|].
-    rewrite <- Hn in Hr. specialize (Hrp p Hp).
+    destruct Gpath as (p & Hp & kt & rest & Hkt & Ht & Hne & Hl & _); [rewrite <- Hn; cbn; tauto|].
+    specialize (Hrp p Hp).
     eapply arrives_route with (m := "POST") (f := "/pins%s") (loc := false) (args := [trim_slash p]) (h := RPinPath) (vars := [("keyType", kt); ("path", rest)]).
     + name_is Hn; reflexivity.
     + unfold client_path_args; name_is Hn. cbn. rewrite Hp. reflexivity.
     + exact Hauth.
     + change (subst_fmt "/pins%s" [trim_slash p]) with ("/pins" ++ (trim_slash p ++ ""))%string. rewrite app_nil_r_s, Ht.
-      apply (R_Path true kt rest Hkt Hne Hl). intros _. apply Hr. reflexivity.
+      apply (R_Path true kt rest Hkt Hne Hl).
     + unfold client_sent, client_op; name_is Hn. cbn. rewrite Hp. cbn. rewrite (trim_slash_id _ Hl).
       change (String "/" (kt ++ String "/" rest)) with ("/" ++ kt ++ "/" ++ rest)%string. rewrite <- Ht. unfold look. cbn [sget]. rewrite String.eqb_refl, Hrp, Ho.
       destruct (cc_local c); reflexivity.
   - (* UnpinPath *)
     destruct Rpath as [Hrp Ho]; [rewrite <- Hn; cbn; tauto|].
-    destruct Gpath as (p & Hp & kt & rest & Hkt & Ht & Hne & Hl & Hr); [rewrite <- Hn; cbn; tauto|].
+    destruct Gpath as (p & Hp & kt & rest & Hkt & Ht & Hne & Hl & _); [rewrite <- Hn; cbn; tauto|].
     specialize (Hrp p Hp).
     eapply arrives_route with (m := "DELETE") (f := "/pins%s") (loc := false) (args := [trim_slash p]) (h := RUnpinPath) (vars := [("keyType", kt); ("path", rest)]).
     + name_is Hn; reflexivity.
     + unfold client_path_args; name_is Hn. cbn. rewrite Hp. reflexivity.
     + exact Hauth.
     + change (subst_fmt "/pins%s" [trim_slash p]) with ("/pins" ++ (trim_slash p ++ ""))%string. rewrite app_nil_r_s, Ht.
-      apply (R_Path false kt rest Hkt Hne Hl). discriminate.
+      apply (R_Path false kt rest Hkt Hne Hl).
     + unfold client_sent, client_op; name_is Hn. cbn. rewrite Hp. cbn. rewrite (trim_slash_id _ Hl).
       change (String "/" (kt ++ String "/" rest)) with ("/" ++ kt ++ "/" ++ rest)%string. rewrite <- Ht. unfold look. cbn [sget]. rewrite String.eqb_refl, Hrp, Ho.
       destruct (cc_local c); reflexivity.
@@ -457,7 +466,7 @@ Proof.
     + name_is Hn; reflexivity.
     + unfold client_path_args; name_is Hn; reflexivity.
     + exact Hauth.
-    + change (subst_fmt "/pins/%s/recover" [cc_cid c]) with ("/pins/" ++ cc_cid c ++ "/recover")%string. apply R_Recover; exact Hg.
+    + change (subst_fmt "/pins/%s/recover" [cc_cid c]) with ("/pins/" ++ cc_cid c ++ "/recover")%string. apply R_Recover; [exact Hg | apply Grecv; rewrite <- Hn; reflexivity].
     + unfold client_sent, client_op; name_is Hn. cbn. unfold look. cbn [sget]. rewrite String.eqb_refl, Hc, Ho. destruct (cc_local c); reflexivity.
   - (* RecoverAll *) cf_closed c Hn Hauth "POST" "/pins/recover" true RRecoverAll.
   - (* Alerts *) cf_closed c Hn Hauth "GET" "/health/alerts" false RAlerts.
@@ -490,29 +499,32 @@ Proof.
     + unfold client_sent; name_is Hn. cbn. rewrite Ha. reflexivity.
 Qed.
 
-(* the guard on PinPath is necessary: POST /pins/ipns/recover is the Recover route with hash = "ipns" *)
+Ltac canon_segs := let s := fresh "s" in let Hs := fresh "Hs" in
+  intros s Hs; vm_compute in Hs; repeat (destruct Hs as [Hs|Hs]; [subst s; repeat split; discriminate|]); contradiction.
+
+(* regression of S26 (fixed): PinPath("/ipns/recover") builds POST /pins/ipns/recover, which used to be taken by the
+   Recover route (then listed first) with hash = "ipns": 400, nothing arrived. It is within the guard now. *)
 Definition recover_call : ccall := mk_ccall "PinPath" false "" "" (Some "/ipns/recover") "" None (Some ["/ipns/recover"; "o"]).
 Definition recover_env : cenv := mk_cenv None None None None (Some "/ipns/recover") (Some "o") None None "" [] "{}".
 
-Lemma pinpath_recover_run : client_run recover_call recover_env = mk_cres [] 400 None false.
+Lemma pinpath_recover_run :
+  client_run recover_call recover_env = mk_cres [("Cluster.PinPath", ["/ipns/recover"; "o"], false)] 0 (Some "{}") false.
 Proof. vm_compute. reflexivity. Qed.
 
-Lemma pinpath_recover_refuted_l :
-  In (cc_name recover_call) known_calls /\ cauthorized recover_env = true /\ rt_ok recover_call recover_env "o" ""
-  /\ (exists p, cc_path recover_call = Some p /\ ipfs_path_ok false p)
-  /\ ~ arrives recover_env (client_sent recover_call recover_env "o" "") (client_run recover_call recover_env).
+Lemma pinpath_recover_in_guard : client_guard recover_call /\ rt_ok recover_call recover_env "o" "".
 Proof.
-  split; [vm_compute; tauto|]. split; [reflexivity|]. split.
-  { unfold rt_ok. cbn [cc_name recover_call In].
+  split.
+  - unfold client_guard. cbn [cc_name recover_call cc_cid cc_peer cc_mname cc_path cc_filter In].
+    split; [intros H; repeat (destruct H as [H|H]; try discriminate); contradiction|].
+    split; [intros H; discriminate|]. split; [intros H; discriminate|]. split; [intros H; discriminate|]. split; [intros H; discriminate|].
+    split; [|intros H; discriminate].
+    intros _. exists "/ipns/recover". split; [reflexivity|]. exists "ipns", "recover". split; [cbn; tauto|]. split; [reflexivity|]. split; [discriminate|]. split; [reflexivity|]. canon_segs.
+  - unfold rt_ok. cbn [cc_name recover_call In].
     split; [intros H; repeat (destruct H as [H|H]; try discriminate); contradiction|].
     split; [intros _; split; [intros p Hp; inversion Hp; subst; reflexivity | reflexivity]|].
     split; [intros H; repeat (destruct H as [H|H]; try discriminate); contradiction|].
     split; [intros H; discriminate|].
-    intros H; repeat (destruct H as [H|H]; try discriminate); contradiction. }
-  split.
-  { exists "/ipns/recover". split; [reflexivity|]. exists "ipns", "recover". repeat split; try discriminate. cbn; tauto. }
-  intros H. pose proof (ar_error _ _ _ H) as He. rewrite pinpath_recover_run in He. cbn in He.
-  assert (X : false = true) by (apply He; discriminate). discriminate.
+    intros H; repeat (destruct H as [H|H]; try discriminate); contradiction.
 Qed.
 
 (* non-vacuity of the guards *)
@@ -523,9 +535,9 @@ Proof.
   cbv zeta. split; [|split].
   - unfold client_guard. cbn [cc_name cc_cid cc_peer cc_mname cc_path cc_filter In]. repeat split;
       try (intros H; repeat (destruct H as [H|H]; try discriminate); contradiction); try discriminate.
-    intros _. exists "/ipfs/QmCid/a/b/". split; [reflexivity|]. exists "ipfs", "QmCid/a/b". repeat split; try discriminate. cbn; tauto.
-  - split; [discriminate | reflexivity].
-  - intros [_ H]. discriminate.
+    intros _. exists "/ipfs/QmCid/a/b/". split; [reflexivity|]. exists "ipfs", "QmCid/a/b". split; [cbn; tauto|]. split; [reflexivity|]. split; [discriminate|]. split; [reflexivity|]. canon_segs.
+  - repeat split; try discriminate.
+  - intros (_ & H & _). discriminate.
 Qed.
 
 (* ------------------------------------------------------------------------------------------ *)
@@ -591,23 +603,4 @@ Proof.
   - unfold spec_okb_client. apply is_nil_true. unfold spec_codes_client. rewrite Ha. cbn [negb cobs_of co_err co_calls co_refused].
     destruct (client_unauth_l c e Ha) as [H1 H2]. rewrite H1. cbn [is_nil]. rewrite andb_true_r.
     destruct H2 as [H2|H2]; rewrite H2; [reflexivity | rewrite orb_true_r; reflexivity].
-Qed.
-
-(* the guard excludes exactly the shape of the recorded finding (tag 1 of the correspondence check) *)
-Lemma recover_shadow_witness : is_recover_shadow recover_call = true.
-Proof. vm_compute. reflexivity. Qed.
-
-Lemma guard_excludes_shadow c : client_guard c -> is_recover_shadow c = false.
-Proof.
-  intros (_ & _ & _ & _ & Gpath & _). cbv zeta in Gpath. unfold is_recover_shadow.
-  destruct (String.eqb (cc_name c) "PinPath") eqn:En; [|reflexivity]. cbn [andb].
-  apply String.eqb_eq in En.
-  destruct Gpath as (p & Hp & kt & rest & Hkt & Ht & Hne & Hl & Hr); [rewrite En; left; reflexivity|].
-  specialize (Hr eq_refl).
-  rewrite Hp, Ht. destruct (kt_facts kt Hkt) as (_ & _ & _ & _ & Hks).
-  unfold segments. cbn [append split_on Ascii.eqb Bool.eqb slash].
-  change (kt ++ "/" ++ rest)%string with (kt ++ String slash rest)%string. rewrite (split_on_app _ _ _ _ Hks).
-  pose proof (join_segments rest) as Hj.
-  destruct (split_on slash (fun x => x) rest) as [|r [|r2 l]]; try reflexivity.
-  cbn in Hj. subst r. cbn [String.eqb]. apply String.eqb_neq in Hr. rewrite Hr. apply andb_false_r.
 Qed.
